@@ -208,7 +208,19 @@ int main(int argc, char** argv) {
   // round trips and single deviations also cover 3-ary tuples (a set-valued component followed by TWO more components spreads a
   // tuple over several rows in a way no pair does); raw malformed tables stay at arity 2 (cost is linear in the number of types)
   const int arity = static_cast<int>(opt.num("arity", 3));
-  const auto types = make_types(maxNodes, opt.mode == "roundtrip" ? arity : 2);
+  auto types = make_types(maxNodes, opt.mode == "roundtrip" ? arity : 2);
+  if (opt.mode == "roundtrip") {
+    // beyond the node bound: a tuple DIRECTLY inside a tuple below a set that is followed by further components - the shapes in
+    // which the packer's and the unpacker's count of "cells of an empty set" can disagree
+    using refv::TBase; using refv::TBool; using refv::TTuple;
+    const auto X = TBase("X1"); const auto Z = TBase("Z");
+    const auto nested = TTuple({ X, TTuple({ X, X }) });          // X1×(X1×X1)
+    const auto nested2 = TTuple({ TTuple({ X, Z }), X });         // (X1×Z)×X1
+    for (const auto& t : std::vector<refv::Type>{
+           TTuple({ TBool(nested), X }), TBool(TTuple({ TBool(nested), X })), TTuple({ TBool(nested2), Z }), TTuple({ X, TBool(nested), X }),
+           TTuple({ TBool(TBool(nested)), X }), TBool(TTuple({ TBool(nested2), TBool(X) })), TTuple({ TBool(TTuple({ nested, X })), X }) })
+      types.push_back(TypeEntry{ t, refv::to_typification(t), refv::str(t) });
+  }
   const auto mutTypes = make_types(static_cast<int>(opt.num("mutnodes", opt.thorough() ? 6 : 5)), arity);
   if (opt.mode == "roundtrip") {
     const size_t cap = static_cast<size_t>(opt.num("cap", opt.thorough() ? 65536 : 4096));
